@@ -17,7 +17,7 @@ M = [
  ("c05_tfield_eats_singleton", X+'transform.rs', "            } else if slen == 1 {\n                // The next singleton ends the transform extension.\n                break;\n", ""),
  ("c07_or_else_swapped", L+'likelysubtags/mod.rs', "    let region = region.or_else(|| input.2.map(|r| subtags::Region::from_raw_unchecked(r)));", "    let region = input.2.map(|r| subtags::Region::from_raw_unchecked(r)).or(region);"),
  ("c06_script_before_region", L+'likelysubtags/mod.rs', None, None),
- ("c06_early_return_or", L+'likelysubtags/mod.rs', "    if !lang.is_empty() && script.is_some() && region.is_some() {\n        return None;\n    }\n\n    if let Some(l)", "    if !lang.is_empty() && (script.is_some() || region.is_some()) && script.is_some() == region.is_some() && lang.as_str().len() == 3 && region.map_or(false, |r| r.as_str().len() == 3) {\n        return None;\n    }\n    if !lang.is_empty() && script.is_some() && region.is_some() {\n        return None;\n    }\n\n    if let Some(l)"),
+ ("c06_early_return_or", L+'likelysubtags/mod.rs', "    if !lang.is_empty() && script.is_some() && region.is_some() {\n        return None;\n    }\n\n    if let Some(l)", "    if !lang.is_empty() && (script.is_some() || region.is_some()) {\n        return None;\n    }\n\n    if let Some(l)"),
  ("c08_no_equality_test", L+'likelysubtags/mod.rs', "    if max_langid.2.is_some() {\n        if let Some(trial) = maximize(max_langid.0, None, max_langid.2) {\n            if trial == max_langid {", "    if max_langid.2.is_some() {\n        if let Some(trial) = maximize(max_langid.0, None, max_langid.2) {\n            if trial.0 == max_langid.0 && trial.2 == max_langid.2 {"),
  ("c08_script_trial_first", L+'likelysubtags/mod.rs', None, None),
  ("c14_rtl_before_script", L+'lib.rs', None, None),
